@@ -43,6 +43,16 @@ var SEQ = (function(){
       Object.defineProperty(o,"nw",{value:8,writable:true,configurable:false,enumerable:true});
       o[SY1] = 9; o[7] = 70;
       return o;
+    case "pidx":   // the prototype chain carries an indexed accessor, an indexed read-only data property and a frozen string property
+      var pr = {};
+      Object.defineProperty(pr, "1", {get: function(){ return this === undefined ? "u" : 11; }, set: F2, configurable: true, enumerable: true});
+      Object.defineProperty(pr, "2", {value: 22, writable: false, configurable: true, enumerable: true});
+      Object.defineProperty(pr, "ro", {value: 5, writable: false, configurable: false, enumerable: false});
+      o = Object.create(pr); o[0] = 1; o.x = 1; return o;
+    case "parr":   // an array whose prototype chain carries an indexed setter (holes fall through to it)
+      var pa = Object.create(Array.prototype);
+      Object.defineProperty(pa, "1", {get: F1, set: F2, configurable: true});
+      o = [1,,3]; Object.setPrototypeOf(o, pa); return o;
     case "uacc": o = {x:1}; Object.defineProperty(o,"q",{get:undefined,set:undefined,configurable:true,enumerable:true}); return o;
     case "pobj": o = Object.create(PA); o.x = 1; return o;
     case "nobj": o = Object.create(null); o.x = 1; return o;
@@ -229,7 +239,47 @@ var SEQ = (function(){
     } catch (e) { r = "T:"+(e && e.constructor && e.constructor.name || "?"); }
     return r+"#ext="+(Reflect.isExtensible(T)?1:0)+"#"+tk.join(",")+"#"+lie.map(ck).join(",");
   }
-  return {run: run, revoked: revoked, jsHandler: jsHandler, TRAPS: TRAPS, keylie: keylie, mkKind: mkKind,
+  // callable / constructor proxies: typeof, [[Call]], IsConstructor, [[Construct]] of proxy^n(T) against T itself
+  function mkCallable(kind){
+    switch(kind){
+    case "fn": return function(a){ return (a|0)+1; };
+    case "arrow": return Function("return (a) => (a|0)+2")();
+    case "method": return ({m(a){ return (a|0)+3; }}).m;
+    case "cls": return Function("return class C { constructor(a){ this.a = a; } }")();
+    case "dcls": return Function("return class D extends Array { }")();
+    case "bound": return (function(a){ return (a|0)+4; }).bind(null);
+    case "async": return Function("return async function(a){ return 1; }")();
+    case "gen": return Function("return function*(a){ yield 1; }")();
+    case "bfn": return Math.max;
+    case "bctor": return Date;
+    case "obj": return {x:1};
+    case "arr": return [1,2];
+    case "pfn": return new Proxy(function(a){ return (a|0)+5; }, {});
+    }
+    throw new Error("bad callable kind "+kind);
+  }
+  function kindFacts(X, T){
+    var f = ["typeof="+typeof X];
+    try { var r = Reflect.apply(X, undefined, [7]); f.push("call=ok:"+(r !== null && (typeof r === "object" || typeof r === "function") ? "obj" : cv(r))); }
+    catch (e) { f.push("call="+(e && e.constructor && e.constructor.name)); }
+    var isCtor; try { Reflect.construct(Object, [], X); isCtor = 1; } catch (e) { isCtor = 0; }
+    f.push("isCtor="+isCtor);
+    try { var o = new X(7); f.push("new=ok:"+(Reflect.getPrototypeOf(o) === T.prototype ? "proto" : "other")+":"+(Array.isArray(o)?"A":"")+cv(o.a)); }
+    catch (e) { f.push("new="+(e && e.constructor && e.constructor.name)); }
+    try { f.push("inst="+((new T(1)) instanceof X)); } catch (e) { f.push("inst="+(e && e.constructor && e.constructor.name)); }
+    return f.join(";");
+  }
+  function fnkind(kind, layers, mkProxy, withTraps){
+    var T = mkCallable(kind), log = [], P = T, i;
+    for (i = 1; i <= layers; i++) P = withTraps ? mkProxy(P, i, log) : new Proxy(P, {});
+    var a = kindFacts(T, T);
+    var mark = log.length;
+    var b = kindFacts(P, T);
+    var calls = log.slice(mark).filter(function(x){ return /:(apply|construct)$/.test(x); });
+    if (a !== b) return "MISMATCH direct="+a+" proxy="+b;
+    return "OK "+a+"#"+calls.join(",");
+  }
+  return {run: run, revoked: revoked, jsHandler: jsHandler, TRAPS: TRAPS, keylie: keylie, mkKind: mkKind, fnkind: fnkind,
           mkMargs: function(){ return SEQ_SLOPPY_ARGS(1,2); },
           jsOuter: function(t, lie){ return new Proxy(t, {ownKeys: function(){ return lie; }}); }};
 })();
@@ -241,6 +291,7 @@ type seqEnv struct {
 	run     goja.Callable
 	revoked goja.Callable
 	keylie  goja.Callable
+	fnkind  goja.Callable
 	mkKind  goja.Callable
 	mkMargs goja.Callable
 	jsOuter goja.Callable
@@ -264,7 +315,7 @@ func newSeqEnv() *seqEnv {
 		return f
 	}
 	e := &seqEnv{vm: vm, run: get(s, "run"), revoked: get(s, "revoked"), jsH: get(s, "jsHandler"), reflect: map[string]goja.Callable{},
-		keylie: get(s, "keylie"), mkKind: get(s, "mkKind"), mkMargs: get(s, "mkMargs"), jsOuter: get(s, "jsOuter")}
+		keylie: get(s, "keylie"), fnkind: get(s, "fnkind"), mkKind: get(s, "mkKind"), mkMargs: get(s, "mkMargs"), jsOuter: get(s, "jsOuter")}
 	r := vm.Get("Reflect").ToObject(vm)
 	for _, t := range []string{"getPrototypeOf", "setPrototypeOf", "isExtensible", "preventExtensions", "getOwnPropertyDescriptor",
 		"defineProperty", "has", "get", "set", "deleteProperty", "ownKeys", "apply", "construct"} {
@@ -456,6 +507,37 @@ func runSeq(f []string) string {
 			return v
 		})
 		v, err := e.revoked(goja.Undefined(), vm.ToValue(f[1]), mk)
+		if err != nil {
+			return "ERR:" + common.OneLine(err.Error())
+		}
+		return v.String()
+	}
+	if f[0] == "fnkind" {
+		// Q fnkind <kind> <layers> <J|G> <traps 0|1>
+		if len(f) < 5 {
+			return "BADLINE"
+		}
+		hk := f[3]
+		mkProxy := vm.ToValue(func(call goja.FunctionCall) goja.Value {
+			t := call.Argument(0).ToObject(vm)
+			if hk == "G" {
+				return vm.ToValue(vm.NewProxy(t, e.goHandler(call.Argument(1).String(), call.Argument(2).ToObject(vm))))
+			}
+			h, err := e.jsH(goja.Undefined(), call.Argument(1), call.Argument(2))
+			if err != nil {
+				panic(err)
+			}
+			p, err := vm.New(vm.Get("Proxy"), t, h)
+			if err != nil {
+				panic(err)
+			}
+			return p
+		})
+		n := 0
+		for _, c := range f[2] {
+			n = n*10 + int(c-'0')
+		}
+		v, err := e.fnkind(goja.Undefined(), vm.ToValue(f[1]), vm.ToValue(n), mkProxy, vm.ToValue(f[4] == "1"))
 		if err != nil {
 			return "ERR:" + common.OneLine(err.Error())
 		}
